@@ -203,3 +203,27 @@ def replace_path(tree, path, new_nodes):
         return (tag, typ, kids[:i] + [rec(kids[i], p[1:])] + kids[i + 1:])
     top = rec((None, STRUCTURE, [tree]), path)
     return top[2]
+
+
+def short_primitive(original, mutant):
+    """original: a well-formed encoding; mutant: the same bytes except for ONE length field of a
+    primitive (non-structure) item. Returns a description if the mutated length makes that item's
+    value extend beyond the end of its enclosing structure (or of the buffer) - the value's bytes
+    are not all there, so the item cannot be fully decoded by anyone - else None."""
+    if len(original) != len(mutant):
+        return None
+    diff = [i for i in range(len(original)) if original[i] != mutant[i]]
+    if not diff:
+        return None
+    items = index(original)
+    ends = {n['path']: n['value_end'] for n in items}
+    for n in items:
+        s = n['start']
+        if n['type'] == STRUCTURE or not all(s + 4 <= i < s + 8 for i in diff):
+            continue
+        newlen = int.from_bytes(mutant[s + 4:s + 8], 'big')
+        container_end = ends.get(n['path'][:-1], len(original))
+        if n['value_start'] + newlen > container_end:
+            return "item %06x declares %d value bytes, %d remain in its container" % (
+                n['tag'], newlen, container_end - n['value_start'])
+    return None
